@@ -385,7 +385,8 @@ fn gen_level(t: &mut Tape<'_>, opts: &GenOpts, depth: usize, name: &str, inh: &I
                 if a.short.is_none() && a.long.is_none() {
                     continue;
                 }
-                if a.long.is_some() && t.chance(1, 4) {
+                // (a short-only argument may carry long aliases as well)
+                if t.chance(1, 4) {
                     for _ in 0..t.range(1, 2) {
                         if let Some(al) = take(t, &mut pools.longs) {
                             a.aliases.push((al.to_owned(), t.bool()));
